@@ -69,10 +69,22 @@ type progGen struct {
 	cartRAM bool   // also point into the cartridge RAM window (free-running workloads only)
 	onlyOAM bool   // pointers only into FE00-FEFF (C17)
 	noOAM   bool   // no pointers into FE00-FEFF (programs that run while a DMA transfer owns OAM)
+	ioPtr   bool   // pointers into the I/O page (registers that are plain cells while their unit is off)
 	preAt   int    // offset at which the last preOp was emitted
 }
 
+// lsIOPointers are hardware registers that behave as plain read/write cells with the LCD and the timer
+// off: a memory operand may as well point at them (span 2: the next address qualifies too).
+var lsIOPointers = []uint16{0xff05, 0xff06, 0xff42, 0xff43, 0xff45, 0xff47, 0xff4a, 0xff4b}
+var lsIOPointers2 = []uint16{0xff05, 0xff42, 0xff4a}
+
 func (g *progGen) pick(span int) uint16 {
+	if g.ioPtr {
+		if span >= 2 {
+			return engine.Pick(g.r, lsIOPointers2)
+		}
+		return engine.Pick(g.r, lsIOPointers)
+	}
 	if g.onlyOAM {
 		if g.r.Chance(1, 4) {
 			return uint16(0xfea0 - 2 + g.r.Intn(4))
@@ -282,6 +294,9 @@ func (g *progGen) emitUnit(op uint8, cb bool, allowIE bool) int {
 }
 
 func (g *progGen) hramOffset(allowIE bool) uint8 {
+	if g.ioPtr {
+		return uint8(engine.Pick(g.r, lsIOPointers))
+	}
 	if allowIE && g.r.Chance(1, 3) {
 		if g.r.Bool() {
 			return 0x0f
